@@ -39,6 +39,8 @@ type backendResp struct {
 	WrongCT      string
 	Cut          int // >0: drop that many bytes from the end of the body
 	BareBody     int // variations of the body of a bare HTTP failure
+	DeclLower    bool   // declared trailer names in lower case
+	Junk         []byte // bytes after the end-of-stream frame, in the same write
 }
 
 func percentEncode(s string) string {
@@ -169,7 +171,11 @@ func (b backendResp) script(r *rng, et *endTables) []action {
 				for _, kv := range endKV {
 					names = append(names, kv[0])
 				}
-				acts = append(acts, action{Op: "hset", Key: "Trailer", Val: strings.Join(names, ", ")})
+				decl := strings.Join(names, ", ")
+				if b.DeclLower {
+					decl = strings.ToLower(decl)
+				}
+				acts = append(acts, action{Op: "hset", Key: "Trailer", Val: decl})
 			}
 			for _, kv := range endKV {
 				setTrailer(kv[0], kv[1])
@@ -258,6 +264,9 @@ func (b backendResp) script(r *rng, et *endTables) []action {
 	}
 	if ct != "" {
 		acts = append(acts, action{Op: "hset", Key: "Content-Type", Val: ct})
+	}
+	if len(b.Junk) > 0 && len(frames) > 0 && (b.Target == vanguard.ProtocolGRPCWeb || (b.Target == vanguard.ProtocolConnect && b.Streaming)) && b.BareStatus == 0 && !b.TrailersOnly {
+		frames[len(frames)-1] = append(append([]byte(nil), frames[len(frames)-1]...), b.Junk...)
 	}
 	var body []byte
 	for _, f := range frames {
@@ -496,6 +505,12 @@ func genResp(r *rng, limits []uint32) *respCase {
 	case 3:
 		b.Cut = 1 + r.intn(6)
 		tag += "+cut"
+	case 4:
+		b.Junk = pick(r, [][]byte{{0}, []byte("junk after the end"), {0, 0, 0, 0, 1, 'x'}})
+		tag += "+junk"
+	}
+	if b.DeclTrailers && r.chance(1, 2) {
+		b.DeclLower = true
 	}
 	return &respCase{cfg: cfg, form: form, target: target, streaming: streaming, req: req, in2: in2, b: b, tables: tables, lim: lim, tag: tag, seed: r.next(),
 		newResp: newResp, serverCodec: serverCodec, clientCodec: clientCodec, msgIDs: msgIDs}
@@ -617,8 +632,27 @@ func (rc *respCase) run(split int) (in L, out L, view clientView, res scenarioRe
 	if kind == 2 {
 		trailers = nil
 	}
+	// C16: message-by-message progress. After each handler Write: how many complete backend data
+	// frames it has written so far, and how many complete frames the client can already see.
+	progress := L{}
+	if envelopedTarget && formEnveloped(form) && b.BareStatus == 0 && len(b.Junk) == 0 && !b.TrailersOnly {
+		written := 0
+		wi := 0
+		for _, a := range script {
+			if a.Op != "write" {
+				continue
+			}
+			written += len(a.Data)
+			if wi < len(res.Backend.Visible) {
+				dataFrames := countDataFrames(body[:min(written, len(body))], target)
+				visible := countFrames(res.Rec.body()[:min(res.Backend.Visible[wi], len(res.Rec.body()))])
+				progress = append(progress, L{int64(dataFrames), int64(visible)})
+			}
+			wi++
+		}
+	}
 	intent := L{int64(form), wellformed, kind, b.ErrCode, B(b.ErrMsg), b.errValue()[2], hdrOf(trailers), hdrOf(b.Headers),
-		target == vanguard.ProtocolConnect && !streaming, int64(b.BareStatus), b.TrailersOnly, lenient, rc.msgIDs}
+		target == vanguard.ProtocolConnect && !streaming, int64(b.BareStatus), b.TrailersOnly, lenient, rc.msgIDs, progress}
 	in = L{tconfV(rc.cfg), rc.in2, scriptV(script), rc.tables.value(), et.value(), endLen, intent}
 	return in, out, view, res, true
 }
@@ -692,4 +726,35 @@ func stackSummary(st string) string {
 		return ""
 	}
 	return " @ " + strings.Join(out, " <- ")
+}
+
+// countFrames: complete envelopes in a prefix of an enveloped stream
+func countFrames(b []byte) int {
+	n := 0
+	for len(b) >= 5 {
+		l := int(binary.BigEndian.Uint32(b[1:5]))
+		if len(b) < 5+l {
+			break
+		}
+		n++
+		b = b[5+l:]
+	}
+	return n
+}
+
+// countDataFrames: complete data (non end-of-stream) envelopes in a prefix of a backend stream
+func countDataFrames(b []byte, target vanguard.Protocol) int {
+	n := 0
+	for len(b) >= 5 {
+		l := int(binary.BigEndian.Uint32(b[1:5]))
+		if len(b) < 5+l {
+			break
+		}
+		isEnd := (target == vanguard.ProtocolGRPCWeb && b[0]&0x80 != 0) || (target == vanguard.ProtocolConnect && b[0]&2 != 0)
+		if !isEnd {
+			n++
+		}
+		b = b[5+l:]
+	}
+	return n
 }
